@@ -36,19 +36,19 @@ type TRec struct {
 	Al    int    `json:"al"`
 	Pend  []Pend `json:"pend"`
 	// masks (absent in families that do not use them)
-	Masked bool  `json:"masked"`
-	Dead   bool  `json:"dead"`
+	Masked bool   `json:"masked"`
+	Dead   bool   `json:"dead"`
 	Kind   string `json:"kind"` // "" = element type of the run; "bool"/"int" for result tensors of a fixed type
 }
 
 type Alloc struct {
-	Start int    `json:"start"`
-	Len   int    `json:"len"`
-	Kind  string `json:"kind"`
-	Et    string `json:"et"`
+	Start int               `json:"start"`
+	Len   int               `json:"len"`
+	Kind  string            `json:"kind"`
+	Et    string            `json:"et"`
 	Mask  []json.RawMessage `json:"mask"`
-	Soft  bool   `json:"soft"`
-	MOpen bool   `json:"mopen"`
+	Soft  bool              `json:"soft"`
+	MOpen bool              `json:"mopen"`
 }
 
 type Post struct {
@@ -75,6 +75,12 @@ type Case struct {
 	ID     string            `json:"id"`
 	// the specification's own integer interpretation of every live tensor (C17), per handle
 	IExp [][]int64 `json:"iexp"`
+	// Level 2 (spec/AP.tla): the strides the transcribed stride arithmetic computes for every live handle
+	L2 []struct {
+		Sh  []int `json:"sh"`
+		St  []int `json:"st"`
+		Dev bool  `json:"dev"`
+	} `json:"l2"`
 }
 
 func (c *Case) Normalize() {
@@ -85,19 +91,19 @@ func (c *Case) Normalize() {
 
 // Divergence is one observation of the real library that the specification forbids.
 type Divergence struct {
-	Case   string `json:"case"`
-	Fam    string `json:"fam"`
-	DT     string `json:"dt"`
-	Pal    string `json:"pal"`
-	Cfg    string `json:"cfg"`
-	Step   int    `json:"step"`
-	Op     string `json:"op"`
-	Sub    string `json:"sub"`
-	Entry  string `json:"entry"`
-	Engine string `json:"engine"`
-	Kind   string `json:"kind"`
-	Detail string `json:"detail"`
-	Path   string `json:"path"` // compact rendering of the program
+	Case   string   `json:"case"`
+	Fam    string   `json:"fam"`
+	DT     string   `json:"dt"`
+	Pal    string   `json:"pal"`
+	Cfg    string   `json:"cfg"`
+	Step   int      `json:"step"`
+	Op     string   `json:"op"`
+	Sub    string   `json:"sub"`
+	Entry  string   `json:"entry"`
+	Engine string   `json:"engine"`
+	Kind   string   `json:"kind"`
+	Detail string   `json:"detail"`
+	Path   string   `json:"path"` // compact rendering of the program
 	Tags   []string `json:"tags"` // circumstances named by the specification along the behaviour
 }
 
